@@ -48,9 +48,21 @@ Proof.
   pose proof (decap_hl_label_memory crc mgr s buf) as L. cbv zeta in L. now rewrite H in L.
 Qed.
 
+(* padding ends the frame: whatever was remembered is forgotten, so a re-use packet behind it cannot be resolved
+   to a label of the frame before *)
+Theorem c04_padding_clears : forall crc mgr s buf s' r, dstate_wf s -> bytes_ok buf -> 2 <= lenN buf ->
+  hdr_view (rd16 (takeN 2 buf)) = None ->
+  decap crc mgr s buf = Ret (s', r) -> dlast s' = None /\ r = inl (DPadding, lenN buf) /\ dmem s' = dmem s.
+Proof.
+  intros crc mgr s buf s' r Hs Hb Hl Hv H. rewrite decap_spec in H by assumption. injection H as H.
+  unfold decap_hl in H. destruct (N.ltb_spec (lenN buf) 2); [lia|]. rewrite Hv in H. injection H as <- <-.
+  repeat split.
+Qed.
+
 (* with sufficient storage every PDU sent with an explicit or broadcast label is delivered: c16_complete and
    c16_fragmented (props/C16.v) hold from every well-formed receiver state *)
 
 Print Assumptions c04_attribution.
 Print Assumptions c04_sync.
 Print Assumptions c04_receiver_only.
+Print Assumptions c04_padding_clears.
